@@ -44,16 +44,6 @@ class Path(PathRun, ExprMixin, CallMixin, BuiltinMixin, StmtMixin):
             return SBool(z3.Implies(a, self.truthy(self.eval(fr, node.args[1]))))
         return CallMixin.e_Call(self, fr, node)
 
-    def getattr(self, fr, base, name, node=None):
-        if isinstance(base, SDyn) and not base.callable and name in PURE_DYN_METHODS and isinstance(getattr(node, 'ctx', None), ast.Load) \
-                and self.d.is_call_func(node):
-            ln = getattr(node, 'lineno', None)
-            if not self.specmode and not isinstance(base.shape, (S.Rec, S.Opaque)) :
-                if self.branch(Val.is_VNone(base.t)):
-                    raise PyRaise('AttributeError', ln, f"'NoneType' object has no attribute '{name}'")
-            return SBuiltin('dynmeth!' + name, base)
-        return ExprMixin.getattr(self, fr, base, name, node)
-
     def call_builtin(self, fr, f, args, kw, node=None):
         if f.name.startswith('dynmeth!'):
             nm = f.name.split('!', 1)[1]
@@ -107,6 +97,7 @@ class Driver:
         self._callfuncs = set()
         self.ob_counter = {}
         self.case_label = ''
+        self.axioms = None
 
     # -- helpers used by paths
     def ob_id(self, kind, label):
@@ -485,6 +476,13 @@ def _spec_mod_lookup(orig):
                 return lift(v)
             if isinstance(v, tuple) and all(isinstance(x, (bool, int, str)) for x in v):
                 return lift(v)
+            import decimal as _dm, datetime as _dt
+            if v is _dm.Decimal:
+                return SBuiltin('decimal.Decimal')
+            if v is _dt:
+                return SModule('datetime')
+            if v is _dt.date:
+                return SBuiltin('datetime.date')
             from .interp_expr import BUILTIN_NAMES
             if name in BUILTIN_NAMES:
                 return SBuiltin(name)
